@@ -183,6 +183,31 @@ def range (args impl : List String) : String :=
     | _, _, _, _ => "bad-op\tok"
   | _ => "bad-op\tok"
 
+/-- first index at which `pat` occurs in `s` -/
+def findSub (s pat : Bytes) : Option Nat :=
+  (List.range (s.length + 1)).find? fun i => (s.drop i).take pat.length == pat
+
+/-- End-to-end go-to-definition of `entrypoint Query.<name>`: the answer must be the range of the
+name in `field Query.<name>` of the defining file, under `utf16Pos` of *that* file. -/
+def goto (args impl : List String) : String :=
+  match args with
+  | [ha, _hc, _l, _c, hn] =>
+    match hexDecode ha, hexDecode hn with
+    | some a, some name =>
+      let pre := strBytes "field Query."
+      match findSub a (pre ++ name) with
+      | none => "bad-op\tok"
+      | some i =>
+        let o1 := i + pre.length
+        let o2 := o1 + name.length
+        let spec := s!"src/ga.ts {posStr (utf16Pos a o1)} {posStr (utf16Pos a o2)}"
+        let got := " ".intercalate impl
+        spec ++ "\t" ++ (if got == spec then "ok"
+          else if got == "panic" then "bad:goto-panic"
+          else if got == "none" then "bad:goto-missing" else "bad:goto-range")
+    | _, _ => "bad-op\tok"
+  | _ => "bad-op\tok"
+
 def litToks (lits : List Lit) : List LitToks :=
   (lits.filter (·.accepted)).map fun l => ⟨l.start, l.toks.map fun (s, e, st) => ⟨s, e, st.lsp⟩⟩
 
@@ -407,6 +432,7 @@ def handle (v : StateDrv.DSt) (fs : List String) : StateDrv.DSt × String :=
   | "pos.hover" :: args => (v, PosDrv.hover args impl)
   | "pos.range" :: args => (v, PosDrv.range args impl)
   | "pos.doc" :: args => (v, PosDrv.doc args impl)
+  | "pos.goto" :: args => (v, PosDrv.goto args impl)
   | "fmt.doc" :: args => (v, FmtDrv.doc args impl)
   | _ => StateDrv.step v req impl
 
